@@ -1,6 +1,11 @@
 (* Driver for the C14 model: reads the harness's case lines
      F \t id \t fn \t args \t input-hex \t result
-   recomputes the result with the extracted model, prints "OK <id>" or "MISMATCH <id> <fn> model=<result>". *)
+   recomputes the result with the extracted model, prints "OK <id>" or "MISMATCH <id> <fn> model=<result>".
+   It also EVALUATES THE HYPOTHESES of the byte-level theorems C14_stream_bytes / C14_sample_bytes on the input
+   (the extracted recognisers wf_stream / wf_sample, fit_units, hevc_stream_units, hevc_units): where they hold,
+   the right-hand side of the theorem (list functions of the units read from the bytes, coq/c14/C14Spec.v and
+   C14HevcSpec.v -- not the model of the function) is compared with what the Go code returned:
+   "OK <id> T" (theorem applied and confirmed) or "THM-MISMATCH <id> <fn> theorem=<result>". *)
 open Vx
 open BinNums
 open Base
@@ -56,11 +61,82 @@ let model (fn : string) (args : int list) (d : coq_N list) : string =
   | "hevc_enot" -> show_res show_list (hevc_ExtractNalusOfTypeFromByteStream (a 0) d (L.nth args 1 = 1))
   | _ -> "unknown-fn"
 
+(* ---- the theorems' right-hand sides on the units read from the bytes; None = hypotheses not satisfied *)
+module Sp = C14Spec
+module Hs = C14HevcSpec
+module Rg = C14RecogModel
+
+let n_of k = n_of_int k
+let avc_before ns = Sp.before_video Sp.avc_type avc_is_video ns
+let hevc_before ns = Hs.u_before_video Hs.hevc_unit_type Hs.hevc_vcl ns
+let hevc_upto ns = Hs.u_types_upto Hs.hevc_unit_type Hs.hevc_vcl ns
+let has_t k l = L.exists (fun t -> int_of_n t = k) l
+
+let theorem_stream (fn : string) (args : int list) (d : coq_N list) : string option =
+  if not (Rg.wf_stream d) then None else
+  let us = Rg.unstream d in
+  let ns = L.map snd us in
+  match fn with
+  | "scan" -> let e = Sp.expected_scs Z0 us in Some ("ok:" ^ show_scan (e, Sp.min_sc_len e))
+  | "b2s" -> if Rg.fit_units us then Some ("ok:" ^ hex_of_bytes (Sp.sample ns)) else None
+  | "enb" -> Some ("ok:" ^ show_list ns)
+  | "avc_gfv" -> Some ("ok:" ^ hex_of_bytes (Sp.first_video Sp.avc_type avc_is_video ns))
+  | "avc_gpsb" ->
+    Some ("ok:" ^ show_ps (([], Sp.of_type Sp.avc_type (n_of 7) (avc_before ns)), Sp.of_type Sp.avc_type (n_of 8) (avc_before ns)))
+  | "avc_enot" ->
+    Some ("ok:" ^ show_list (Sp.of_type Sp.avc_type (n_of (L.nth args 0)) (if L.nth args 1 = 1 then avc_before ns else ns)))
+  | "hevc_gpsb" when Hs.hevc_stream_units us ->
+    let b = hevc_before ns in
+    let f k = Hs.u_of_type Hs.hevc_unit_type (n_of k) b in
+    Some ("ok:" ^ show_ps ((f 32, f 33), f 34))
+  | "hevc_enot" when Hs.hevc_stream_units us ->
+    Some ("ok:" ^ show_list (Hs.u_of_type Hs.hevc_unit_type (n_of (L.nth args 0)) (if L.nth args 1 = 1 then hevc_before ns else ns)))
+  | _ -> None
+
+let theorem_sample (fn : string) (args : int list) (s : coq_N list) : string option =
+  if not (Rg.wf_sample s) then None else
+  let ns = Rg.unsample_units s in
+  let hv = S.length fn > 5 && S.sub fn 0 5 = "hevc_" in
+  if hv && not (Hs.hevc_units ns) then None else
+  let ut = Hs.hevc_unit_type in
+  match fn with
+  | "gnfs" -> Some ("ok:" ^ show_list ns)
+  | "s2b" -> Some ("ok:" ^ hex_of_bytes (Sp.stream4 ns))
+  | "avc_fnt" -> Some ("ok:" ^ show_types (L.map (Sp.utype Sp.avc_type) ns))
+  | "avc_fntv" -> Some ("ok:" ^ show_types (Sp.types_upto Sp.avc_type avc_is_video ns))
+  | "avc_cnt" -> Some ("ok:" ^ show_bool (Sp.has_type Sp.avc_type (n_of (L.nth args 0)) ns))
+  | "avc_idr" -> Some ("ok:" ^ show_bool (Sp.has_type Sp.avc_type (n_of 5) ns))
+  | "avc_hps" ->
+    let l = Sp.types_upto Sp.avc_type avc_is_video ns in Some ("ok:" ^ show_bool (has_t 7 l && has_t 8 l))
+  | "avc_gps" ->
+    Some ("ok:" ^ show_ps (([], Sp.of_type Sp.avc_type (n_of 7) (avc_before ns)), Sp.of_type Sp.avc_type (n_of 8) (avc_before ns)))
+  | "hevc_fnt" -> Some ("ok:" ^ show_types (Hs.u_types ut ns))
+  | "hevc_fntv" -> Some ("ok:" ^ show_types (hevc_upto ns))
+  | "hevc_cnt" -> Some ("ok:" ^ show_bool (Hs.u_has ut (fun t -> int_of_n t = L.nth args 0) ns))
+  | "hevc_rap" -> Some ("ok:" ^ show_bool (Hs.u_has ut Hs.hevc_irap ns))
+  | "hevc_idr" -> Some ("ok:" ^ show_bool (Hs.u_has ut Hs.hevc_idr ns))
+  | "hevc_hps" -> let l = hevc_upto ns in Some ("ok:" ^ show_bool (has_t 32 l && has_t 33 l && has_t 34 l))
+  | "hevc_gps" ->
+    let b = hevc_before ns in
+    let f k = Hs.u_of_type ut (n_of k) b in
+    Some ("ok:" ^ show_ps ((f 32, f 33), f 34))
+  | _ -> None
+
+let theorem (fn : string) (args : int list) (d : coq_N list) : string option =
+  match fn with
+  | "scan" | "b2s" | "enb" | "avc_gfv" | "avc_gpsb" | "avc_enot" | "hevc_gpsb" | "hevc_enot" -> theorem_stream fn args d
+  | "hzb" -> None
+  | _ -> theorem_sample fn args d
+
 let () =
   iter_lines (fun line ->
       match split_on '\t' line with
       | ["F"; id; fn; args; inhex; result] ->
-        let m = model fn (ints_of_csv args) (bytes_of_hex inhex) in
-        if m = result then Printf.printf "OK %s\n" id
-        else Printf.printf "MISMATCH %s %s model=%s\n" id fn m
+        let a = ints_of_csv args and d = bytes_of_hex inhex in
+        let m = model fn a d in
+        if m <> result then Printf.printf "MISMATCH %s %s model=%s\n" id fn m
+        else (match theorem fn a d with
+            | None -> Printf.printf "OK %s\n" id
+            | Some e when e = result -> Printf.printf "OK %s T\n" id
+            | Some e -> Printf.printf "THM-MISMATCH %s %s theorem=%s\n" id fn e)
       | _ -> Printf.printf "BADLINE %s\n" line)
